@@ -37,7 +37,8 @@ def extra_monitors():
     return []
 
 
-RELABEL = {"stuck": ["C17", "stuck_after_rerun"], "offer_unknown_task": ["C17", "rerun_offered_engine_command"]}
+RELABEL = {"stuck": ["C17", "stuck_after_rerun"], "offer_unknown_task": ["C17", "rerun_offered_engine_command"],
+           "rerun_offered_item_that_did_not_fail": ["C17", "rerun_repeated_completed_item"]}
 
 
 def reruns(job):
